@@ -19,13 +19,18 @@ CFG = {
         ("udp", dict(Socks='{"udp"}', Lites="{FALSE}",
                      UserAlpha='{"ok", "missing", "wrong"}',
                      MiAlpha='{"ok", "missing", "wrongKey", "remoteKey", "garbled"}',
-                     FpAlpha='{"ok", "none"}'), (300, 8)),
+                     FpAlpha='{"ok", "none"}'), (200, 8)),
         # shared single-port UDP socket: the demux in front of the agent adds routing state (9x the states);
         # enable_ice_lite (no effect on the ICE transport in WebRTC mode) is varied across the two entries
         ("mux", dict(Socks='{"mux"}', Lites="{TRUE}",
                      UserAlpha='{"ok", "missing", "wrong"}',
-                     MiAlpha='{"ok", "missing", "wrongKey"}',
+                     MiAlpha='{"ok", "missing"}',
                      FpAlpha='{"ok"}'), (100, 8)),
+        # ICE-TCP: requests arrive on connections accepted by the agent's passive TCP candidate (RFC 4571 frames)
+        ("tcp", dict(Socks='{"tcp"}', Lites="{FALSE}",
+                     UserAlpha='{"ok", "missing", "wrong"}',
+                     MiAlpha='{"ok", "missing", "wrongKey", "remoteKey", "garbled"}',
+                     FpAlpha='{"ok", "none"}'), (60, 6)),
     ],
     "thorough": [
         ("udp-fine", dict(Socks='{"udp"}', Lites="{FALSE, TRUE}",
@@ -37,6 +42,11 @@ CFG = {
                           UserAlpha='{"ok", "missing", "wrong", "swapped", "nocolon"}',
                           MiAlpha='{"ok", "missing", "wrongKey", "remoteKey", "garbled"}',
                           FpAlpha='{"ok", "none"}'), (1000, 12)),
+        ("tcp-fine", dict(Socks='{"tcp"}', Lites="{FALSE, TRUE}",
+                          UserAlpha='{"ok", "missing", "wrong", "swapped", "prefix", "nocolon", "empty"}',
+                          MiAlpha='{"ok", "missing", "wrongKey", "remoteKey", "emptyKey", "ufragKey", "garbled", '
+                                  '"garbledBody", "truncated"}',
+                          FpAlpha='{"ok", "none"}'), (500, 8)),
     ],
 }
 
@@ -99,6 +109,9 @@ def replay_edges(ck, edges_path, label, shards=NSHARDS):
             elif t in ("drift", "divergence"):
                 ck.drift.append({"why": r.get("why"), "act": r.get("act") or r.get("case", {}).get("act"),
                                  "pre": [h.get("a") for h in (r.get("pre") or r.get("case", {}).get("pre") or [])]})
+            elif t == "wire":
+                # conformance of the agent's own messages: property C16 (checks/C16.py runs this harness for it)
+                ck.drift.append({"why": "agent wire message (C16)", "detail": r.get("detail")})
             elif t == "toolerror":
                 raise vlib.ToolError(f"replayer: {r.get('detail')}")
     summ["edges"] = summ["stats"].get("edges", 0)
